@@ -229,6 +229,8 @@ def run(res, tier, seed):
         d = rng.randrange(len(docs))
         n = flats[d]["n"]
         ins = {"level": rng.choice(["single", "multiple", "any"]), "hasCount": True, "count": rng.choice(vpool), "hasFrom": rng.random() < 0.3, "from": rng.choice(vpool[:2])}
+        if rng.random() < 0.45:        # the variable only in the FROM pattern, the count pattern constant
+            ins = {"level": rng.choice(["any", "any", "single", "multiple"]), "hasCount": True, "count": rng.choice(pat_pool()[:6]), "hasFrom": True, "from": rng.choice(vpool)}
         ids = [i for i in range(1, n + 1) if flats[d]["kind"][i - 1] != "attr"]
         order = [(rng.choice(ids), rng.choice(["a", "b", "c", "1", "t", "ab"])) for _ in range(min(14, 2 * len(ids)))]
         order += [(k_, rng.choice(["a", "b"])) for k_, _t in order[:6]]          # the same nodes again under another value
